@@ -400,6 +400,13 @@ def semantic_row(exc, prog, f, o):
         sa = csv_slot_array(f)
         if sa is not None and store_base(o) == sa[0]:
             return row
+        if sa is None and not f.calls('snoopy_util_string_countChars') and any(
+                common.holder(f, m) == store_base(o) for m in f.calls('malloc') + f.calls('calloc')):
+            # the list splitter counts its separators itself: that the second walk meets as many as the first one
+            # counted is not a linear fact, and the argument accepted for countChars()/strchr() does not carry over
+            raise AnalysisBroken('%s sizes its slot array from a count it computes itself (%s): the slots-per-separator '
+                                 'argument is only implemented for a snoopy_util_string_countChars() count' % (
+                                     f.name, render(o.node)[:50]))
     return None
 
 
